@@ -165,6 +165,9 @@ type step struct {
 	slot  uint64
 	block *refspec.SignedBlock
 	env   *common.BeaconBlockEnvelope
+	// noValidate: state_transition(validate_result=False) — an error can then only come from the
+	// processing itself, never from the final state-root comparison
+	noValidate bool
 }
 
 // runStep executes the step on a fresh copy of the lock's pre-state.
@@ -179,7 +182,7 @@ func runStep(l *sim.Lock, spec *common.Spec, ctx context.Context, st *step) (pos
 		if st.kind == "slots" {
 			return common.ProcessSlots(ctx, spec, epc, s, common.Slot(st.slot))
 		}
-		return common.StateTransition(ctx, spec, epc, s, st.env, true)
+		return common.StateTransition(ctx, spec, epc, s, st.env, !st.noValidate)
 	})
 	return s, err, panicked
 }
@@ -317,6 +320,20 @@ func engineFaults(r *report.Run, l *sim.Lock, st *step, fork int, refPost *refsp
 			if err == nil {
 				return report.Failf("engine/accepted-unapproved-payload", "%s: the transition reports success", desc)
 			}
+			// the error must come from the payload processing, not from the state-root comparison at the end
+			// (a transition that skipped the engine would leave a state whose root does not match, and "fail" for that reason only)
+			nv := *st
+			nv.noValidate = true
+			eng2 := &engine{spec: &spec, verdict: v}
+			spec.ExecutionEngine = eng2
+			_, err2, pan2 := runStep(l, &spec, context.Background(), &nv)
+			r.Eval(1)
+			if pan2 {
+				return report.Failf("engine/panic", "%s (validate_result=false): %v", desc, err2)
+			}
+			if err2 == nil {
+				return report.Failf("engine/accepted-unapproved-payload", "%s: with validate_result=false the transition processes the block without error", desc)
+			}
 			// the header must not have been updated
 			if post != nil {
 				pf, qf := zb.ForkOfState(pre), zb.ForkOfState(post)
@@ -437,13 +454,20 @@ func run(r *report.Run, cc *sim.ChainCase) *report.Failure {
 			return nil
 		}
 		st := &step{kind: "block", slot: slot, block: sb, env: env}
+		hasPayload := sb.Message.Fork >= refspec.Capella || (sb.Message.Fork == refspec.Bellatrix && !isDefaultPayload(sb))
 		if f := inject(r, l, st, sb.Message.Fork); f != nil {
 			if f == errStop {
+				// The undisturbed library run fails or diverges (C01's subject). One thing can still be decided
+				// without the reference: whatever else is wrong, a payload the engine refuses must not be processed.
+				if hasPayload {
+					if f := engineVerdictOnly(r, l, st, sb.Message.Fork); f != nil {
+						return f
+					}
+				}
 				return nil
 			}
 			return f
 		}
-		hasPayload := sb.Message.Fork >= refspec.Capella || (sb.Message.Fork == refspec.Bellatrix && !isDefaultPayload(sb))
 		if hasPayload {
 			if f := engineFaults(r, l, st, sb.Message.Fork, refPost); f != nil {
 				if f == errStop {
@@ -464,6 +488,43 @@ func run(r *report.Run, cc *sim.ChainCase) *report.Failure {
 			return nil
 		}
 	}
+	return nil
+}
+
+// engineVerdictOnly: for every verdict combination with at least one refusal, the block (processed with
+// validate_result=false so that only processing errors count) must not go through.
+func engineVerdictOnly(r *report.Run, l *sim.Lock, st *step, fork int) *report.Failure {
+	forkName := refspec.ForkNames[fork]
+	callsPerFork := 2
+	if fork >= refspec.Deneb {
+		callsPerFork = 3
+	}
+	total := 9
+	if callsPerFork == 3 {
+		total = 27
+	}
+	nv := *st
+	nv.noValidate = true
+	for code := 1; code < total; code++ {
+		var v [3]int
+		if callsPerFork == 3 {
+			v[0], v[1], v[2] = code%3, (code/3)%3, code/9
+		} else {
+			v[0], v[2] = code%3, code/3
+		}
+		spec := *l.LibSpec
+		spec.ExecutionEngine = &engine{spec: &spec, verdict: v}
+		_, err, panicked := runStep(l, &spec, context.Background(), &nv)
+		r.Eval(1)
+		desc := fmt.Sprintf("%s block at slot %d (undisturbed run already diverges), engine verdicts (block-hash,versioned-hashes,new-payload)=%v", forkName, st.slot, v)
+		if panicked {
+			return report.Failf("engine/panic", "%s: %v", desc, err)
+		}
+		if err == nil {
+			return report.Failf("engine/accepted-unapproved-payload", "%s: with validate_result=false the transition processes the block without error", desc)
+		}
+	}
+	r.Class("engine-verdict-only-pass(after C01-domain divergence)")
 	return nil
 }
 
